@@ -70,7 +70,14 @@ fn build_base(seed: u64, i: usize) -> Base {
     // error ids are never allowed in these runs
     opts.allow.retain(|a| a.starts_with("CS") || a.starts_with("CA"));
     let world = render_world(&project, &style, style_seed);
-    let case = make_case(&project, world, &opts, quiet_plan(&mut r_plan));
+    let mut plan = quiet_plan(&mut r_plan);
+    // part of the configuration, not the planted failure: the SARIF file may be
+    // impossible to create or to write (read-only or full disk)
+    if opts.sarif.is_some() && r_plan.chance(1, 4) {
+        let (call, errno) = *r_plan.pick(&[("create", libc::EACCES), ("create", libc::ENOSPC), ("write", libc::ENOSPC), ("write", libc::EDQUOT)]);
+        plan.faults.push(Fault { call: call.into(), errno, occurrence: 1, suffix: "out.sarif".into() });
+    }
+    let case = make_case(&project, world, &opts, plan);
     Base { project, style, style_seed, opts, case }
 }
 
@@ -338,7 +345,32 @@ fn plant(b: &Base, class: &'static str, rng: &mut Rng) -> Option<Planted> {
                 f
             };
             detail = d.name.clone();
+            let is_t = d.is_template();
             project.files[target_fi].defs.push(d);
+            // often another template of a named file instantiates the broken one, so that
+            // it is looked up (and its lifting attempted) from outside, before or after its
+            // own analysis depending on the hash key
+            if is_t && rng.chance(2, 3) {
+                let mut hosts: Vec<(usize, usize)> = Vec::new();
+                for &fi in &p.named {
+                    for (di, dd) in project.files[fi].defs.iter().enumerate() {
+                        if dd.is_template() && dd.name != "TpDup" && !matches!(dd.kind, DefKind::Template { custom: true, .. }) {
+                            hosts.push((fi, di));
+                        }
+                    }
+                }
+                if !hosts.is_empty() {
+                    let (fi, di) = hosts[rng.usize(hosts.len())];
+                    project.files[fi].defs[di].body.push(raw("component tpc = TpDup ( 1 , 2 ) ; tpc . x <== 1 ;"));
+                    detail.push_str(&format!(" instantiated by `{}`", project.files[fi].defs[di].name));
+                    if fi != target_fi {
+                        let inc = project.files[target_fi].path.clone();
+                        if !project.files[fi].includes.iter().any(|i| i.trim_start_matches("./") == inc) {
+                            project.files[fi].includes.push(inc);
+                        }
+                    }
+                }
+            }
             rerender = true;
         }
         "dup-def" => {
@@ -464,6 +496,7 @@ struct Res {
     harness_err: Option<String>,
     fps: Vec<u64>,
     sim_ns: i64,
+    sarif_faults_fired: usize,
 }
 
 fn judge_planted(twin: &Outcome, twin_world: &World, pl: &Planted, o: &Outcome) -> Option<(String, String)> {
@@ -528,7 +561,7 @@ fn multiset_with_pos(out: &crate::outparse::Stdout, world: &World) -> Vec<NF> {
 }
 
 fn one(runner: &Runner, seed: u64, i: usize, per_project: usize, sweep_class: Option<&'static str>) -> Res {
-    let mut res = Res { runs: 0, planted: vec![], violations: vec![], skipped_crash: 0, harness_err: None, fps: vec![], sim_ns: 0 };
+    let mut res = Res { runs: 0, planted: vec![], violations: vec![], skipped_crash: 0, harness_err: None, fps: vec![], sim_ns: 0, sarif_faults_fired: 0 };
     let b = build_base(seed, i);
     let twin = match runner.run(&b.case) {
         Ok(o) => o,
@@ -572,13 +605,17 @@ fn one(runner: &Runner, seed: u64, i: usize, per_project: usize, sweep_class: Op
             continue;
         }
         // did the seam fault fire?
-        let fired = if pl.case.plan.faults.is_empty() {
+        let planted_faults: Vec<&Fault> = pl.case.plan.faults.iter().filter(|f| f.suffix != "out.sarif").collect();
+        let fired = if planted_faults.is_empty() {
             true
         } else {
             o.events.iter().any(|e| {
-                pl.case.plan.faults.iter().any(|f| f.call == e.call && e.path.ends_with(&f.suffix) && e.result_num().map(|v| v < 0).unwrap_or(false))
+                planted_faults.iter().any(|f| f.call == e.call && e.path.ends_with(&f.suffix) && e.result_num().map(|v| v < 0).unwrap_or(false))
             })
         };
+        if o.events.iter().any(|e| (e.call == "create" || e.call == "write") && e.path.ends_with("out.sarif") && e.result_num().map(|v| v < 0).unwrap_or(false)) {
+            res.sarif_faults_fired += 1;
+        }
         res.planted.push((class, fired));
         res.fps.push(hash_str(&serde_json::to_string(&pl.case).unwrap_or_default()));
         if !fired {
@@ -675,6 +712,7 @@ pub fn run(env: &Env) -> i32 {
     cov.insert("samples".into(), json!([sample]));
     cov.insert("planted_per_class".into(), json!(per_class.iter().map(|(k, v)| (k.to_string(), json!({"planted": v.0, "fired": v.1}))).collect::<BTreeMap<_, _>>()));
     cov.insert("classes".into(), json!(CLASSES));
+    cov.insert("runs_with_sarif_write_fault_fired".into(), json!(results.iter().map(|r| r.sarif_faults_fired).sum::<usize>()));
     cov.insert("runs_skipped_because_crashed".into(), json!(results.iter().map(|r| r.skipped_crash).sum::<usize>()));
     cov.insert("simulated_seconds".into(), json!(results.iter().map(|r| r.sim_ns as i128).sum::<i128>() as f64 / 1e9));
     cov.insert("runs_per_hour".into(), json!((runs as f64 / wall * 3600.0) as u64));
